@@ -198,7 +198,8 @@ def zero_layer(run):
                         continue
                     E.focus(r)
                     qw, out = r.value
-                    run.add(f"C16/{fam}/zero-layer-shape[{tag}]/path{pi}", r.hyps, z3.And(lib.shape_eq(out.shape, [B, N]), z3.BoolVal(out.dtype == dtype)), "property", inst, replay=rp)
+                    run.add(f"C16/{fam}/zero-layer-shape[{tag}]/path{pi}", r.hyps, z3.And(lib.shape_eq(out.shape, [B, N]), z3.BoolVal(out.dtype == dtype)), "property", inst,
+                            replay=lambda m, sd, i=dict(inst): replay_zero_layer(m, sd, i, shape_only=True))
                     if len(out.shape) != 2:
                         continue
                     E.drain()
@@ -236,10 +237,11 @@ def zero_layer(run):
                         zsum, zk = occ[0] == 0, fk == 0
                     run.add(f"C16/{fam}/zero-layer-summands-are-zero[{tag}]/path{pi}", hy + [k >= 0, k < K], z3.And(zk, same_idx), "property", inst, replay=rp, timeout=FT)
                     want = bf(j) if bias else z3.FPVal(0.0, srt)
-                    run.add(f"C16/{fam}/zero-layer-outputs-bias[{tag}]/path{pi}", hy + [zsum], z3.fpEQ(got, want), "property", inst, replay=rp, timeout=FT)
+                    # (conditional on the lemma above: the native counterpart of a failure here is the failure of the whole clause, replayed there)
+                    run.add(f"C16/{fam}/zero-layer-outputs-bias[{tag}]/path{pi}", hy + [zsum], z3.fpEQ(got, want), "property", inst, replay=rp if fam == "int" else None, timeout=FT)
 
 
-def replay_zero_layer(model, seed, inst):
+def replay_zero_layer(model, seed, inst, shape_only=False):
     import torch
     from optimum.quanto import qtypes, quantize_weight
 
@@ -257,6 +259,10 @@ def replay_zero_layer(model, seed, inst):
         except Exception as e:
             return {"what": f"raises {type(e).__name__}: {str(e)[:150]}", "n_k_b": [n, k, b]}
         want = bias.expand(b, n) if bias is not None else torch.zeros(b, n, dtype=dt)
+        if shape_only:
+            if tuple(out.shape) != (b, n) or out.dtype != dt:
+                return {"what": "output shape / dtype of the zero-weight layer", "got": list(out.shape)}
+            continue
         if tuple(out.shape) != (b, n) or not torch.equal(out, want):
             bad = (out != want) if tuple(out.shape) == (b, n) else None
             return {"what": "a layer with all-zero weights does not output its bias", "n_k_b": [n, k, b], "qtype": inst["qtype"], "dtype": inst["dtype"],
